@@ -151,12 +151,27 @@ def seq_used_as_singleton(f, vec_local):
         if n in ("index", "index_mut") and id(t) in single:
             continue
         return False
-    # direct place indexing `v[0]` on an array/slice local
-    for b, blk in enumerate(f.bb):
-        t = blk["t"]
-        if t[KIND] == "assert" and "BoundsCheck" in str(t[6] if len(t) > 6 else "") and id(t) not in single:
-            # is the asserted container one of ours?
-            pass
+    # any other appearance of the sequence (moved into an aggregate, returned, stored in a field, iterated by place
+    # projection) lets its order escape
+    def mentions(x):
+        if isinstance(x, list):
+            if len(x) == 2 and x[0] in ("cp", "mv") and isinstance(x[1], list) and x[1] and x[1][0] in aliases:
+                return True
+            return any(mentions(y) for y in x)
+        return False
+
+    for _, st in f.all_stmts():
+        if st[KIND] != "a":
+            continue
+        rv = st[5]
+        if st[4][0] in aliases and not st[4][1]:
+            continue  # definition of an alias
+        if rv[0] in ("ref", "raw") and rv[1][0] in aliases:
+            if rv[1][1] in ([], ["*"]) and not st[4][1]:
+                continue  # handled as alias above (dest is an alias)
+            return False
+        if mentions(rv):
+            return False
     return True
 
 
